@@ -114,6 +114,28 @@ def run_numeric(chk, exe, rng, broken, scale=1):
             cases.append((fn, n, mode, M, z0))
             lines.append('convn %s %d %s %s %s' % (fn, n, mode, ' '.join(vlib.c2h(x) for x in M.flatten()),
                                                    ' '.join(vlib.c2h(x) for x in z0)))
+    # singular inputs that are not in the conversion's singular set: an admittance matrix with a series element and no shunt path
+    # (det Y = 0, yet S exists), an impedance matrix with a shunt element only (det Z = 0)
+    for fn in ('vnaconv_ytosn', 'vnaconv_ztosn'):
+        if fn not in NFUNCS:
+            continue
+        for k in range(max(6, per // 4)):
+            n = rng.choice([2, 2, 3, 4])
+            g = rc(rng) * rng.choice([1, 50, 0.02])
+            M = np.zeros((n, n), complex)
+            i_, j_ = rng.sample(range(n), 2)
+            if fn == 'vnaconv_ytosn':
+                M[i_, i_] = M[j_, j_] = g          # series element between ports i and j
+                M[i_, j_] = M[j_, i_] = -g
+            else:
+                M[i_, i_] = M[j_, j_] = M[i_, j_] = M[j_, i_] = g      # shunt element seen from ports i and j
+            if n > 2 and rng.random() < 0.5:
+                q = next(x for x in range(n) if x not in (i_, j_))
+                M[q, q] = rc(rng) * 3                                   # one more port with an element of its own
+            z0 = z0_vector(rng, n)
+            mode = 'alias' if k % 3 == 2 else 'sep'
+            cases.append((fn, n, mode, M, z0))
+            lines.append('convn %s %d %s %s %s' % (fn, n, mode, ' '.join(vlib.c2h(x) for x in M.flatten()), ' '.join(vlib.c2h(x) for x in z0)))
     # 2-port vs n-port at n = 2, and two-port round trips
     pair2 = []
     for k in range(per):
